@@ -246,7 +246,7 @@ func checkC03(c *Case) *Outcome {
 		for b := 1; b < nb; b++ {
 			prevY, prevH, y := v.BandY[[2]int{ci, b - 1}], v.BandH[[2]int{ci, b - 1}], v.BandY[[2]int{ci, b}]
 			need := prevY + prevH + ls
-			if y < need-1e-9*(1+math.Abs(need)) {
+			if y < need-1e-9*(tolUnit()+math.Abs(need)) {
 				return o.failf("component %d: band %d starts at y=%v, but the band above ends at %v (+ LayerSpacing %v = %v)", ci, b, y, prevY+prevH, ls, need)
 			}
 		}
@@ -316,7 +316,7 @@ func checkC04(c *Case) *Outcome {
 		}
 	}
 	tol := func(vals ...float64) float64 {
-		m := 1.0
+		m := tolUnit()
 		for _, x := range vals {
 			m += math.Abs(x)
 		}
@@ -544,7 +544,7 @@ func checkC06(c *Case) *Outcome {
 				return o.failf("polyline route of %q->%q spans %d bands but has %d points (want one bend per intermediate band)", e.FromID, e.ToID, span, len(e.Points))
 			}
 			for i := 1; i < len(e.Points); i++ {
-				if e.Points[i][1] < e.Points[i-1][1]-1e-9*(1+math.Abs(e.Points[i][1])) {
+				if e.Points[i][1] < e.Points[i-1][1]-1e-9*(tolUnit()+math.Abs(e.Points[i][1])) {
 					return o.failf("polyline route of %q->%q goes upward: %v then %v", e.FromID, e.ToID, e.Points[i-1], e.Points[i])
 				}
 			}
@@ -552,7 +552,7 @@ func checkC06(c *Case) *Outcome {
 				p := e.Points[i]
 				bendX = append(bendX, p[0])
 				for _, n := range l.Nodes {
-					t := 1e-9 * (1 + math.Abs(p[0]) + math.Abs(p[1]) + n.W + n.H)
+					t := 1e-9 * (tolUnit() + math.Abs(p[0]) + math.Abs(p[1]) + n.W + n.H)
 					if p[0] > n.X+t && p[0] < n.X+n.W-t && p[1] > n.Y+t && p[1] < n.Y+n.H-t {
 						return o.failf("bend %v of %q->%q lies strictly inside node %q %+v", p, e.FromID, e.ToID, n.ID, n.Size)
 					}
